@@ -26,8 +26,10 @@ def run(tier):
     return ec.run_property(PID, tier, jobs,
                            'generated direct DAGs (forks, joins, guards, error routes, fail/succeed commands) and reverse graphs x action-result '
                            'assignments x schedule policies x both schedulers; non-trivial = distinct runs with at least two task executions',
-                           _nontrivial, model_runs=lambda d: ec.catalogue_model_runs(d, tier), strict=True, prescribed=True,
-                           model_behaviours=lambda d: ec.model_jobs(d, tier, sims=[(None, 3 if tier == 'quick' else 12, 0, 0, ())]))
+                           _nontrivial, model_runs=lambda d: ec.catalogue_model_runs(d, tier) +
+                           ec.catalogue_model_runs(d, tier, shapes=_gen.reverse_catalogue(), liveness_for=('rev_diamond', 'rev_diamond_err'), tag='_rev', schedulers=('default', 'legacy')),
+                           strict=True, prescribed=True,
+                           model_behaviours=lambda d: ec.model_jobs(d, tier, shapes=_gen.catalogue() + _gen.reverse_catalogue(), sims=[(None, 3 if tier == 'quick' else 12, 0, 0, ())]))
 
 
 def replay(path):
